@@ -1359,9 +1359,9 @@ class NewObjEx(Opcode):
         args = interpreter.stack.pop()
         class_type = interpreter.stack.pop()
         if isinstance(args, ast.Tuple):
-            call = ast.Call(class_type, list(args.elts), kwargs)
+            call = ast.Call(class_type, list(args.elts), [ast.keyword(None, kwargs)])
         else:
-            call = ast.Call(class_type, [ast.Starred(args)], kwargs)
+            call = ast.Call(class_type, [ast.Starred(args)], [ast.keyword(None, kwargs)])
         var_name = interpreter.new_variable(call)
         interpreter.stack.append(ast.Name(var_name, ast.Load()))
 
